@@ -198,6 +198,20 @@ def hygiene(files):
     return hits
 
 
+def coqchk(prop_file, timeout=2400):
+    """Independent re-check of the compiled property file and everything it depends on.  Returns (summary dict, error)."""
+    mod = "GR." + prop_file[:-2].replace("/", ".")
+    rc, so, se = run(["coqchk", "-silent", "-o", "-Q", TH, "GR", mod], cwd=COQ, timeout=timeout)
+    text = so + se
+    if rc != 0:
+        return {}, "coqchk failed: " + " ".join(text.split())[-300:]
+    out = {}
+    for key, label in (("axioms", "Axioms:"), ("type_in_type", "type-in-type:"), ("unsafe_fixpoints", "unsafe (co)fixpoints:"), ("assumed_positivity", "positivity is assumed:")):
+        m = re.search(re.escape(label) + r"\s*(.*?)(?=\n\s*\n|\n\* |\Z)", text, flags=re.S)
+        out[key] = " ".join(m.group(1).split()) if m else "?"
+    return out, None
+
+
 def print_assumptions(prop_file):
     """Print Assumptions for every Theorem of Properties/<X>.v.  Returns (dict name -> list of axioms, error)."""
     path = os.path.join(TH, prop_file)
